@@ -127,6 +127,44 @@ def scenario_from_cluster_hist(scn, topo, tables, menus, hist, fols, queries=())
             "inserted": inserted, "settles": settles}
 
 
+def directed_cluster(topo):
+    """Goal-directed fault histories (behaviours of spec/Cluster.tla that random
+    simulation reaches rarely): the orders of skip / flush / accept / flush / crash in
+    which a table's separately persisted offsets and its file store's offsets differ."""
+    L, P, R = topo
+    fols = ["f%d_%d" % (p, k) for p in range(P) for k in range(R)]
+    # per leader: rejected by table b's WHERE (b = 'x'), then accepted ones, on keys of different partitions
+    menus, nid = [], 1
+    for l in range(L):
+        m = [point(nid, 2, 1, vs=("w", "x")), point(nid + 1, 3, 2, vs=("w",)), point(nid + 2, 3, 3, vs=("w", "x")), point(nid + 3, 4, 4, vs=("w",)),
+             point(nid + 4, 5, 1, vs=("w",)), point(nid + 5, 5, 3, vs=("w", "x")), point(nid + 6, 6, 4, vs=("w",)), point(nid + 7, 6, 2, vs=("w", "x"))]
+        nid += len(m)
+        menus.append(m)
+    ins = lambda i: [{"a": "Insert", "l": "l%d" % l, "i": i} for l in range(L)]
+    conn = lambda fs: [{"a": "Connect", "f": f, "l": "l%d" % l} for f in fs for l in range(L)]
+    flush = lambda ts: [{"a": "Flush", "f": f, "t": t} for f in fols for t in ts]
+    S = [{"a": "Settle"}]
+    crash = lambda f: [{"a": "CrashFollower", "f": f}, {"a": "RestartFollower", "f": f}] + conn([f])
+    hs = {}
+    # a table that only skipped entries is flushed (its offsets go to the offset file), later
+    # it accepts entries and is flushed again, then the follower crashes
+    hs["StaleOffsets"] = conn(fols) + ins(1) + ins(2) + S + flush(["b"]) + ins(3) + ins(4) + S + flush(["b", "a"]) + crash(fols[0]) + ins(5) + ins(6) + S
+    # the same with the crash right after the second flush of b only, and a second crash
+    hs["StaleOffsets2"] = (conn(fols) + ins(1) + S + flush(["b"]) + ins(3) + S + flush(["b"]) + crash(fols[-1]) + ins(2) + ins(4) + S
+                           + flush(["a"]) + crash(fols[-1]) + ins(5) + S)
+    # unflushed entries are lost by the crash and must be sent again, flushed ones must not
+    hs["CrashUnflushed"] = conn(fols) + ins(1) + ins(3) + S + flush(["a", "b"]) + ins(4) + ins(2) + S + crash(fols[0]) + ins(5) + S
+    # one table flushed, the other not: the leader must restart at the earlier of the two and each table must skip what it has
+    hs["OneTableFlushed"] = conn(fols) + ins(3) + ins(4) + S + flush(["a"]) + ins(1) + ins(5) + S + crash(fols[0]) + ins(6) + S + flush(["b"]) + crash(fols[0]) + ins(7) + S
+    # the follower returns with an older directory: everything after the snapshot is sent again, once
+    hs["OlderSnapshot"] = (conn(fols) + ins(1) + ins(3) + S + flush(["a", "b"]) + [{"a": "SnapshotFollower", "f": fols[0]}] + ins(4) + ins(2) + S + flush(["a", "b"])
+                           + [{"a": "CrashFollower", "f": fols[0]}, {"a": "RestoreFollower", "f": fols[0]}, {"a": "RestartFollower", "f": fols[0]}] + conn([fols[0]]) + ins(5) + S)
+    # link cut while entries arrive, flush, reconnect, crash
+    hs["CutFlushCrash"] = (conn(fols) + ins(3) + S + [{"a": "Cut", "f": fols[0], "l": "l0"}] + ins(4) + ins(1) + flush(["b"]) + conn([fols[0]]) + S + flush(["b"])
+                           + crash(fols[0]) + ins(5) + S)
+    return menus, hs, fols
+
+
 def judge_cluster(pid, V, sc, lines, tables, stats, judge_queries):
     herr = [l for l in lines if l["a"] == "HarnessError"]
     if herr:
@@ -370,6 +408,15 @@ def cluster_check(args, pid, judge_queries, topos, quick_n, thorough_n, text, no
                     sc = scenario_from_cluster_hist("%s-%d-%d" % (pid, gi, j), topo, tabs, menus, h, fols, qs)
                     sc["tabs_variant"] = [t.partition_by for t in tabs]
                     scenarios.append(sc)
+            if not judge_queries:
+                for di, topo in enumerate([(1, 2, 1), (2, 2, 1), (1, 2, 2)] if quick else [(1, 2, 1), (2, 2, 1), (1, 2, 2), (1, 3, 1), (2, 3, 2)]):
+                    menus, hs, fols = directed_cluster(topo)
+                    for vi in ((0,) if quick else (0, 2, 3)):
+                        tabs = cluster_tables(variant=vi)
+                        for name, h in hs.items():
+                            sc = scenario_from_cluster_hist("%s-d%d-%d-%s" % (pid, di, vi, name), topo, tabs, menus, h, fols, [])
+                            sc["tabs_variant"] = [t.partition_by for t in tabs]
+                            scenarios.append(sc)
         print("[%s] %d scenarios generated at %.1fs" % (pid, len(scenarios), time.time() - t0), flush=True)
         strip = lambda s: {k: v for k, v in s.items() if k not in ("inserted", "settles", "tabs_variant")}
         for s in scenarios:
